@@ -1320,6 +1320,35 @@ fn template_family(out: &mut Out) {
             Err(_) => {}
         }
     }
+    // every documented configuration of `sanitize`: a custom argument — also one spelled out with its default value (`lowercase=false`) — selects the custom
+    // sanitiser `Sanitizer::str(separator, lowercase or false, keep_zeros or false, max_length)`; a preset together with any custom argument is refused (seed T15_1)
+    for v in ["Feature/API-v2", "Rel_007.x", "00", "a--B"] {
+        for sep in [None, Some("."), Some("-")] {
+            for lc in [None, Some(true), Some(false)] {
+                for kz in [None, Some(true), Some(false)] {
+                    for ml in [None, Some(6usize)] {
+                        if sep.is_none() && lc.is_none() && kz.is_none() && ml.is_none() { continue; }
+                        let mut a = format!("value=\"{v}\"");
+                        if let Some(x) = sep { a += &format!(", separator=\"{x}\""); }
+                        if let Some(x) = lc { a += &format!(", lowercase={x}"); }
+                        if let Some(x) = kz { a += &format!(", keep_zeros={x}"); }
+                        if let Some(x) = ml { a += &format!(", max_length={x}"); }
+                        out.cases += 1;
+                        let want = Sanitizer::str(sep, lc.unwrap_or(false), kz.unwrap_or(false), ml).sanitize(v);
+                        match render(format!("{{{{ sanitize({a}) }}}}")) {
+                            Ok(r) => if r != want { out.cex("template_functions", format!("sanitize({a}) = {r:?}, the custom sanitiser of these arguments gives {want:?}")); },
+                            Err(e) if e.starts_with("PANIC") => out.cex("template_functions", format!("sanitize({a}) {e}")),
+                            Err(e) => out.cex("template_functions", format!("sanitize({a}) is refused ({e}); the custom sanitiser gives {want:?}")),
+                        }
+                        out.cases += 1;
+                        if let Ok(r) = render(format!("{{{{ sanitize({a}, preset=\"uint\") }}}}")) {
+                            out.cex("template_functions", format!("sanitize({a}, preset=\"uint\") is accepted and gives {r:?}: a preset together with a custom argument is to be refused"));
+                        }
+                    }
+                }
+            }
+        }
+    }
     for ts in [0u64, 86399, 1710511845, 4102444799] {
         for f in ["%Y-%m-%d", "%H:%M:%S", "%Y%m%d", "compact_date", "compact_datetime", "%j", "%Q", "%", "%-", "%:::z%!"] {
             out.cases += 1;
